@@ -210,6 +210,16 @@ struct H {
           v.push_back(b);
         }
       }
+    // the same tensors at small and large magnitudes (traces far below machine epsilon, far above 1)
+    {
+      const size_t n0 = v.size();
+      for (int e : {-30, -70, 25})
+        for (size_t k = 0; k < n0; k += 3) {
+          std::array<TA, 6> a = v[k];
+          for (auto& x : a) x = std::ldexp(x, e);
+          v.push_back(a);
+        }
+    }
     unsigned long long s = 0x9E3779B97F4A7C15ULL;
     const int ng = thorough ? 64 : 12;
     for (int k = 0; k < ng; k++) {
